@@ -308,7 +308,7 @@ func c20FlatFamily(c *Cfg, r *Rng) {
 			c.Op("I", "final "+enc, fmt.Sprint(fc.maskOfValue(d)))
 		}
 	}
-	n := c.Pick(1500, 6000)
+	n := c.Pick(300, 6000)
 	var cases []*c20Case
 	for i := 0; i < n; i++ {
 		cases = append(cases, &c20Case{origin: fmt.Sprintf("flat:%d", i), pkg: c20GenFlat(r.Sub()), feats: map[string]bool{"flat-family": true}})
